@@ -78,6 +78,9 @@ EVENTS = [
     ("cli-turbo-wav", "cli", (["m.mac"], {"m.mac": P_VALID + "make_turbo_wav \"t.wav\", \"TURBO\"\n"})),
     ("cli-both-wav", "cli", (["m.mac"], {"m.mac": P_VALID + "make_turbo_wav \"t.wav\"\nmake_wav \"n.wav\"\nmake_bin\n"})),
     ("cli-charset-koi", "cli", (["m.mac", "-o", "k.bin", "--charset", "koi8-r"], {"m.mac": "\t.ascii /\u0451/\n\t.byte '\u0451\n"})),
+    # listings in which several names share one value (their order must not come from a hash table)
+    ("cli-lst-equal-values", "cli", (["m.mac", "-o", "out.bin", "--lst"], {"m.mac": "a:\nb:\nzed:\tnop\nk1 = 0\nk2 = 0\nq9 = 1000\nalpha = 1000\nzeta = 1000\nc:\nd:\nbb:\tnop\n"})),
+    ("cli-lst-equal-values-two-files", "cli", (["m.mac", "n.mac", "-o", "out.bin", "--lst"], {"m.mac": "first::\nf2:\nf3:\tnop\nx1 = 7\nx2 = 7\n", "n.mac": "second::\ns2:\nx1 = 7\ny = 7\nyy = 7\n\tnop\n\t.include \"inc2.mac\"\n"})),
     ("cli-critical", "cli", (["m.mac", "--implicit-bin"], {"m.mac": "\tnop\n\t.ascii \"abc\n"})),
 ]
 
